@@ -18,16 +18,20 @@ namespace MayVerif.Io
   | _ => none
 /-- the kernel tail still carries the coroutine it is going to publish in the slot of `s` -/
 @[grind] def kTok : KPc → Option (Co × Sock)
-  | .start s c _ | .set s c _ _ | .store s c _ => some (c, s)
+  | .start s c _ | .set s c _ _ | .store s c _ | .reg0 s c _ => some (c, s)
   | _ => none
-@[grind] def kHolds : KPc → Option Co | .dis _ c => some c | _ => none
+@[grind] def kHolds : KPc → Option Co | .dis _ c | .ownDis _ c => some c | _ => none
 @[grind] def wHolds : WPc → Option Co | .sDis _ c => some c | _ => none
 /-- about to (re-)check / take on socket `s` -/
 @[grind] def kWill : KPc → Sock → Bool
   | .load s' _ _, s | .take s', s => s' == s
   | _, _ => false
 @[grind] def wWill : WPc → Sock → Bool
-  | .sTake s', s => s' == s
+  | .sTake s', s | .fTake s' _, s => s' == s
+  | _, _ => false
+/-- the timeout handler has popped an entry of `s` and is about to raise IO_FLAG_TIMEOUT -/
+@[grind] def fPend : WPc → Sock → Bool
+  | .fOr s' _, s => s' == s
   | _, _ => false
 
 structure Inv1 (st : St) : Prop where
@@ -46,8 +50,8 @@ structure Inv1 (st : St) : Prop where
   nb : st.bad = false
   nd : st.dup = false
 
-theorem inv1_init (co : Co → Bool) : Inv1 (init co) := by
-  constructor <;> simp [init, kTok, kHolds, wHolds, uSock]
+theorem inv1_init (ff fd : Bool) (co : Co → Bool) : Inv1 (initCfg ff fd co) := by
+  constructor <;> simp [initCfg, kTok, kHolds, wHolds, uSock]
 
 structure Inv2 (st : St) : Prop where
   /-- the tail that filled the slot is a real one -/
@@ -59,8 +63,8 @@ structure Inv2 (st : St) : Prop where
   j2 : ∀ s c, st.slot s = some c → st.flag s ≠ 0 →
         kWill (st.kpc (st.lastStore s)) s = true ∨ wWill (st.wpc (st.lastFetch s)) s = true
 
-theorem inv2_init (co : Co → Bool) : Inv2 (init co) := by
-  constructor <;> simp [init, phaseOn]
+theorem inv2_init (ff fd : Bool) (co : Co → Bool) : Inv2 (initCfg ff fd co) := by
+  constructor <;> simp [initCfg, phaseOn]
 
 theorem phase_uSock (pc : UPc) (s : Sock) (h : phaseOn pc = some s) : uSock pc = some s := by
   cases pc <;> simp_all [phaseOn, uSock]
@@ -95,8 +99,8 @@ structure Inv4 (st : St) : Prop where
   r4 : ∀ c w, st.loc c = .heldW w → wHolds (st.wpc w) = some c
   r5 : ∀ c, st.loc c = .queued → st.queued c = true
 
-theorem inv4_init (co : Co → Bool) : Inv4 (init co) := by
-  constructor <;> simp [init, isWait]
+theorem inv4_init (ff fd : Bool) (co : Co → Bool) : Inv4 (initCfg ff fd co) := by
+  constructor <;> simp [initCfg, isWait]
 
 set_option hygiene false in
 macro "prep4" : tactic => `(tactic| (
